@@ -38,6 +38,7 @@ type Tape struct {
 	Seed   uint64
 	Replay bool
 	s      [NStreams]stream
+	fills  uint64
 }
 
 func splitmix(x *uint64) uint64 {
@@ -152,7 +153,11 @@ func (t *Tape) Uint64(st int) uint64 {
 
 // Fill fills p with bytes expanded from one tape draw.
 func (t *Tape) Fill(st int, p []byte) {
-	x := uint64(t.Choose(st, 1<<31)) + 0x5bd1e995
+	// The n-th Fill of a run differs from the others even when the draws are
+	// equal (a minimised tape serves zeros): a rejection-sampling loop in the
+	// code under test must not see the same bytes for ever.
+	t.fills++
+	x := uint64(t.Choose(st, 1<<31)) + 0x5bd1e995 + t.fills*0x9E3779B97F4A7C15
 	var w uint64
 	for i := range p {
 		if i%8 == 0 {
